@@ -7,6 +7,7 @@ mod scen_build;
 mod scen_cfg;
 mod scen_gate;
 mod scen_hist;
+mod scen_par;
 mod scen_replace;
 mod scen_rt;
 mod scen_visit;
@@ -39,6 +40,7 @@ fn run_case(idx: u64, c: &CaseDesc, w: &mut Writer) {
             "gate" => scen_gate::run(input, &mut end),
             "cfg" => scen_cfg::run(input, &mut end),
             "hist" => scen_hist::run(input, &mut end),
+            "par" => scen_par::run(input, &c.scenario, &mut end),
             "replace" => scen_replace::run(input, &mut end),
             "build" => scen_build::run(input, &mut end),
             "visit" => scen_visit::run(input, &mut end),
@@ -55,6 +57,15 @@ fn main() {
     let args: Vec<String> = std::env::args().collect();
     util::install_panic_hook();
     let out = arg(&args, "--out").expect("--out");
+    if args.get(1).map(|s| s.as_str()) == Some("dump") {
+        // materialize an input to a file (used to hand inputs to the Miri flavour, which must not run the generators)
+        let spec = arg(&args, "--spec").expect("--spec");
+        match workload::materialize(&spec) {
+            Some(b) => std::fs::write(&out, b).expect("write"),
+            None => std::process::exit(3),
+        }
+        return;
+    }
     let mut w = Writer::create(&out).expect("open log");
     if args.get(1).map(|s| s.as_str()) == Some("replay") {
         let c = CaseDesc { spec: arg(&args, "--spec").expect("--spec"), scenario: arg(&args, "--scenario").expect("--scenario") };
